@@ -497,6 +497,15 @@ func RichExtras(qname vfkit.Name) (ns, ar []vfkit.RR) {
 	ptr := vfkit.RR{Owner: sub("ptr"), Type: 12, Class: 1, TTL: 3600, RData: []vfkit.RDPart{nm(low)}}
 	a6 := vfkit.RR{Owner: sub("ns"), Type: 28, Class: 1, TTL: 3600, RData: []vfkit.RDPart{raw(append([]byte{0x20, 0x01, 0x0d, 0xb8}, h[:12]...)...)}}
 	opaque := vfkit.RR{Owner: sub("x"), Type: 65, Class: 1, TTL: 3600, RData: []vfkit.RDPart{raw(h[:9]...)}}
+	if h[4]%4 == 0 {
+		// a bulky answer for one name in four: some 2 KiB on the wire even with compression, above every "small
+		// response" threshold a listener might have
+		bulk := []vfkit.RR{mx, srv, ptr, a6, opaque}
+		for i := 0; i < 40; i++ {
+			bulk = append(bulk, vfkit.RR{Owner: sub("glue"), Type: 16, Class: 1, TTL: 3600, RData: []vfkit.RDPart{raw(append([]byte{31}, bytes.Repeat([]byte{(h[5] ^ byte(i)) & 0x7f}, 31)...)...)}})
+		}
+		return []vfkit.RR{nsr, soa}, bulk
+	}
 	switch h[3] % 4 {
 	case 1:
 		return []vfkit.RR{soa}, []vfkit.RR{mx}
